@@ -590,9 +590,9 @@ def model_check(ev, tier, work):
     ev.add_tlc(r, "Dir: 3 directories, 3 names, every operation sequence of length <= %d (BFS)" % depth)
     res.append(("Dir", r))
     # without dir_nlink: mkdir in a directory that holds LinkMax links is refused (EMLINK), no directory ever exceeds the limit
-    c = cfg("MC_Dir_nonlink.cfg", spec="Spec", constants=dict(base, DirNlink="FALSE", MaxDepth=depth), invariants=inv, constraints=["Depth"])
+    c = cfg("MC_Dir_nonlink.cfg", spec="Spec", constants=dict(base, DirNlink="FALSE", MaxDepth=min(depth, 4)), invariants=inv, constraints=["Depth"])
     r = T.tlc(os.path.join(SPEC, "MC_Dir.tla"), c, workers=JOBS, timeout=2400, xmx="4g")
-    ev.add_tlc(r, "Dir without dir_nlink: 3 directories, 3 names, every operation sequence of length <= %d (BFS)" % depth)
+    ev.add_tlc(r, "Dir without dir_nlink: 3 directories, 3 names, every operation sequence of length <= %d (BFS)" % min(depth, 4))
     res.append(("Dir-nonlink", r))
     # the count abstraction of one directory (Trace_DirNlink) at scaled limits, with and without dir_nlink
     for dn in ("TRUE", "FALSE"):
